@@ -108,12 +108,16 @@ macro_rules! impl_facade {
                     }
                 }
                 let r = self.inner.$syscall(fn_ptr, $($arg, )*);
+                // what follows (state listeners, logging) may make system calls of its own;
+                // the caller must find the error code of its own call in errno
+                let errno = std::io::Error::last_os_error().raw_os_error().unwrap_or(0);
                 if let Some(co) = $crate::scheduler::SchedulableCoroutine::current() {
                     if co.running().is_err() {
                         $crate::error!("{} change to running state failed !", co.name());
                     }
                 }
-                $crate::info!("exit syscall {} {:?} {}", syscall, r, std::io::Error::last_os_error());
+                $crate::info!("exit syscall {} {:?} {}", syscall, r, std::io::Error::from_raw_os_error(errno));
+                $crate::syscall::set_errno(errno);
                 r
             }
         }
